@@ -195,6 +195,13 @@ def rule_json_codec(ctx, rep, rid: str) -> None:
                     for lp in f.own_nodes():
                         if isinstance(lp, ast.For) and "_properties" in norm(lp.iter) and isinstance(lp.target, ast.Tuple) and isinstance(lp.target.elts[0], ast.Name) and lp.target.elts[0].id == arg0.id:
                             only_str = True  # a property key
+                        # a key that is None or a property name, printed only where None was excluded
+                        if isinstance(lp, ast.For) and isinstance(lp.iter, ast.Name) and isinstance(lp.target, ast.Tuple) and isinstance(lp.target.elts[0], ast.Name) and lp.target.elts[0].id == arg0.id and any(isinstance(a, ast.Assign) and any(isinstance(t_, ast.Name) and t_.id == lp.iter.id for t_ in a.targets) and "_properties" in norm(a.value) for a in f.own_nodes()):
+                            from ..util import atoms, known_conditions
+
+                            ats = [(norm(a_).replace(" ", ""), p_) for t_, pol_ in known_conditions(n, f.node) for a_, p_ in atoms(t_, pol_)]
+                            if any((a_ == f"{arg0.id}isNone" and not p_) or (a_ == f"{arg0.id}isnotNone" and p_) for a_, p_ in ats):
+                                only_str = True
                 if only_str:
                     rep.ok(rid, key + ":allow_nan", {"note": "the host encoder only receives strings here"})
                 elif kws.get("allow_nan") != "False":
@@ -220,7 +227,16 @@ def rule_json_omission(ctx, rep, rid: str) -> None:
     if conv is None:
         raise AnalysisError("the recursive JSON value converter was not found")
     key = f"{conv.qual}:object-omission"
-    loop = next((n for n in conv.own_nodes() if isinstance(n, ast.For) and "_properties" in norm(n.iter)), None)
+
+    def _over_properties(n, g) -> bool:
+        if not isinstance(n, ast.For):
+            return False
+        if "_properties" in norm(n.iter):
+            return True
+        # a local that one branch fills from the property table (`members = list(v._properties.items())`)
+        return isinstance(n.iter, ast.Name) and any(isinstance(a, ast.Assign) and any(isinstance(t_, ast.Name) and t_.id == n.iter.id for t_ in a.targets) and "_properties" in norm(a.value) for a in g.own_nodes())
+
+    loop = next((n for n in conv.own_nodes() if _over_properties(n, conv)), None)
     if loop is None:
         # the member loop lives in a helper closure of the same factory (mutually recursive with the converter)
         for f in ctx.tree.funcs:
@@ -228,7 +244,7 @@ def rule_json_omission(ctx, rep, rid: str) -> None:
             while g is not None and g is not stringify:
                 g = g.parent
             if g is stringify and any(isinstance(n, ast.Call) and isinstance(n.func, ast.Name) and n.func.id == conv.name for n in f.own_nodes()):
-                loop = next((n for n in f.own_nodes() if isinstance(n, ast.For) and "_properties" in norm(n.iter)), None)
+                loop = next((n for n in f.own_nodes() if _over_properties(n, f)), None)
                 if loop is not None:
                     break
     if loop is None:
